@@ -18,6 +18,17 @@ JOBS = {
     ("C06", "thorough"): [dict(module="Ring", cfg="MC_RingFault_leave.cfg", workers=8), dict(module="Ring", cfg="MC_RingFault_drop.cfg", workers=4),
                           dict(module="Ring", cfg="MC_RingFault_leavejoin.cfg", workers=12, timeout=3600),
                           dict(module="Ring", cfg="MC_RingFault_quick.cfg", workers=12, timeout=5400, allow_timeout=True)],
+    # MC_Dp: the DP master operators (Dp.tla, conformance-checked against the real DpMaster by TraceDpM) with the reference
+    # slave and a fault budget: no panic, C08/C03/C14 monitors, and <>[]AllRunning (C07) - complete state spaces
+    ("C07", "quick"): [dict(module="MC_Dp", cfg="MC_Dp_quick.cfg", workers=8), dict(module="MC_Dp", cfg="MC_Dp_np0.cfg", workers=2)],
+    ("C07", "thorough"): [dict(module="MC_Dp", cfg="MC_Dp_quick.cfg", workers=8), dict(module="MC_Dp", cfg="MC_Dp_np0.cfg", workers=2),
+                          dict(module="MC_Dp", cfg="MC_Dp_three.cfg", workers=12, timeout=3600), dict(module="MC_Dp", cfg="MC_Dp_thorough.cfg", workers=12, timeout=3600)],
+    ("C08", "quick"): [dict(module="MC_Dp", cfg="MC_Dp_quick.cfg", workers=8)],
+    ("C08", "thorough"): [dict(module="MC_Dp", cfg="MC_Dp_three.cfg", workers=12, timeout=3600), dict(module="MC_Dp", cfg="MC_Dp_thorough.cfg", workers=12, timeout=3600)],
+    ("C03", "quick"): [dict(module="MC_Dp", cfg="MC_Dp_quick.cfg", workers=8)],
+    ("C03", "thorough"): [dict(module="MC_Dp", cfg="MC_Dp_three.cfg", workers=12, timeout=3600)],
+    ("C14", "quick"): [dict(module="MC_Dp", cfg="MC_Dp_quick.cfg", workers=8), dict(module="MC_Dp", cfg="MC_Dp_np0.cfg", workers=2)],
+    ("C14", "thorough"): [dict(module="MC_Dp", cfg="MC_Dp_three.cfg", workers=12, timeout=3600), dict(module="MC_Dp", cfg="MC_Dp_np0.cfg", workers=2)],
 }
 
 
